@@ -1192,7 +1192,9 @@ def use_rules(ctx):
 # (Function Mul/Add dispatch and delegations, the Linear/Quadratic/Polynomial merge and product kernels, their keys) are decided by
 # the C02 rule families, re-decided here (C09 and C13 rely on the same families).
 RELIES_ON = {'C01': ['C01.lookup', 'C01.fields', 'C01.every-term'],
-             'C02': ['C02.kernel', 'C02.keys', 'C02.dispatch', 'C02.deleg/v1::Function_Mul_v1::Function', 'C02.deleg/v1::Function_Mul_v1::Linear',
+             # C02.branches: the Option-linear-part case tables of Quadratic + {Quadratic, Linear, f64} and Quadratic * f64, which the
+             # Function dispatch of `out + v` / `v * r` lands in (seed C04-17: `rhs.linear.map(..)` dropped the left linear part when rhs has none)
+             'C02': ['C02.kernel', 'C02.keys', 'C02.dispatch', 'C02.branches', 'C02.deleg/v1::Function_Mul_v1::Function', 'C02.deleg/v1::Function_Mul_v1::Linear',
                      'C02.deleg/v1::Function_Add_v1::Function'],
              'C03': ['C03.instance/cover/decision_variable_dependency', 'C03.instance/apply/decision_variable_dependency']}
 
